@@ -421,10 +421,48 @@ func Worker(o core.WorkerOpts) *core.Report {
 	}
 	setupCapture()
 	defer teardownCapture()
+	// small-scope exhaustive part first: this worker's share of all histories of
+	// length 3 (quick) or 4 (thorough) over the fixed alphabet
+	alpha := exhaustiveAlphabet()
+	exhLen := 3
+	if o.Tier == "thorough" {
+		exhLen = 4
+	}
+	exhTotal := exhaustiveCount(alpha, exhLen)
+	exhNext := int64(o.Worker)
+	if o.MaxCases > 0 {
+		exhNext = exhTotal // determinism self-test: random part only
+	}
+	workers := int64(o.Workers)
+	if workers < 1 {
+		workers = 1
+	}
 	l.Run(func(i int64, caseSeed uint64) {
 		r := core.NewRand(caseSeed)
 		var c Case
 		switch {
+		case exhNext < exhTotal:
+			// a batch of enumerated histories counts as one loop step
+			for k := 0; k < 200 && exhNext < exhTotal; k++ {
+				ec := exhaustiveCase(alpha, exhLen, exhNext)
+				exhNext += workers
+				er := Execute(ec, false, o.Bin)
+				l.Rep.Evaluations += int64(er.Handled)
+				l.Rep.Steps["protocol_messages"] += int64(er.Handled)
+				l.Rep.Reach["exhaustive_histories_done"]++
+				if er.HarnessErr != "" {
+					l.Rep.HarnessErr = er.HarnessErr
+					return
+				}
+				if er.Violation != nil && l.ShouldReport(*er.Violation) {
+					fr := Execute(ec, true, o.Bin)
+					l.AddReplay(*fr.Violation, caseSeed, ec, nil, fr.Trace.Events, fr.Trace.Hash(), 0, "controlled")
+				}
+			}
+			if exhNext >= exhTotal {
+				l.Rep.Reach["exhaustive_share_completed"]++
+			}
+			return
 		case subEvery > 0 && i%subEvery == 5:
 			c = genHistory(r, "subproc")
 		case i%4 == 1:
